@@ -11,7 +11,20 @@ import (
 	"github.com/attestantio/go-eth2-client/spec/phase0"
 	"github.com/attestantio/vouch/internal/vnd"
 	"github.com/attestantio/vouch/internal/vstub"
+	"github.com/rs/zerolog"
 )
+
+// c13FarFuture is the far future epoch handed to the constructor.
+const c13FarFuture = phase0.Epoch(0xffffffffffffffff)
+
+// c13New builds the validators manager through its constructor; the known
+// validators (state that has no option) are put in place by the caller.
+func c13New(p *c13Provider, label string) *Service {
+	s, err := New(context.Background(), WithLogLevel(zerolog.Disabled), WithMonitor(struct{}{}),
+		WithClientMonitor(vstub.ClientMonitor{}), WithValidatorsProvider(p), WithFarFutureEpoch(c13FarFuture))
+	vnd.Assert(err == nil && s != nil, label)
+	return s
+}
 
 type c13Provider struct {
 	mode int // 0: validators, 1: empty, 2: error
@@ -39,10 +52,10 @@ func VerifC13_Retain() {
 	p := &c13Provider{mode: vnd.Choose("refresh.outcome", 3)}
 	newRec := &phase0.Validator{PublicKey: newKey, ActivationEpoch: 2}
 	p.data = map[phase0.ValidatorIndex]*apiv1.Validator{newIdx: {Index: newIdx, Validator: newRec}}
-	s := &Service{clientMonitor: vstub.ClientMonitor{}, validatorsProvider: p,
-		validatorsByIndex:      map[phase0.ValidatorIndex]*phase0.Validator{oldIdx: oldRec},
-		validatorsByPubKey:     map[phase0.BLSPubKey]*phase0.Validator{oldKey: oldRec},
-		validatorPubKeyToIndex: map[phase0.BLSPubKey]phase0.ValidatorIndex{oldKey: oldIdx}}
+	s := c13New(p, "C13.new.accepted")
+	s.validatorsByIndex[oldIdx] = oldRec
+	s.validatorsByPubKey[oldKey] = oldRec
+	s.validatorPubKeyToIndex[oldKey] = oldIdx
 	err := s.RefreshValidatorsFromBeaconNode(context.Background(), []phase0.BLSPubKey{oldKey, newKey})
 	got := s.ValidatorsByPubKey(context.Background(), []phase0.BLSPubKey{oldKey, newKey, {9}})
 	if p.mode == 0 {
@@ -62,10 +75,10 @@ func VerifC17_RefreshVsLookup() {
 	key := phase0.BLSPubKey{1}
 	rec := &phase0.Validator{PublicKey: key}
 	p := &c13Provider{mode: vnd.Choose("refresh.outcome", 3), data: map[phase0.ValidatorIndex]*apiv1.Validator{7: {Index: 7, Validator: rec}}}
-	s := &Service{clientMonitor: vstub.ClientMonitor{}, validatorsProvider: p,
-		validatorsByIndex:      map[phase0.ValidatorIndex]*phase0.Validator{5: rec},
-		validatorsByPubKey:     map[phase0.BLSPubKey]*phase0.Validator{key: rec},
-		validatorPubKeyToIndex: map[phase0.BLSPubKey]phase0.ValidatorIndex{key: 5}}
+	s := c13New(p, "C17.new.accepted")
+	s.validatorsByIndex[5] = rec
+	s.validatorsByPubKey[key] = rec
+	s.validatorPubKeyToIndex[key] = 5
 	go func() { _ = s.RefreshValidatorsFromBeaconNode(context.Background(), []phase0.BLSPubKey{key}) }()
 	go func() { _ = s.ValidatorsByPubKey(context.Background(), []phase0.BLSPubKey{key}) }()
 	left := vnd.Quiesce()
